@@ -36,8 +36,11 @@ class C16(Prop):
             "benchmark; distinct = distinct cases. 6% of the series are long daily histories (800-1300 observations) with "
             "an early crash, measured on CAGR / cumulative return / max drawdown / Calmar; for every other valid series "
             "of at least 3 daily levels the rows of tearsheet() are checked too (against the independent definitions, "
-            "risk-adjusted rows against the metric called with the tearsheet's own risk-free series)")
-    nontrivial_tags = {"tearsheet-long-history", "intraday", "corrupted", "benchmark", "long"}
+            "risk-adjusted rows against the metric called with the tearsheet's own risk-free series; in half of them with a "
+            "`prices=` frame whose 'CAGR <asset>' rows are checked and whose invalid columns must be rejected); a quarter of the "
+            "cases pass the series as one column of a two-column DataFrame (either position; a value corruption may sit in "
+            "the other column only); a fifth use a timezone-aware index")
+    nontrivial_tags = {"dataframe", "tearsheet-long-history", "intraday", "corrupted", "benchmark", "long"}
     assumptions = [
         "sqrt, log and ** are leaves (C library in both the executed model and the implementation), 1e-9 relative",
         "quantiles use pandas' default linear interpolation; ddof = 1",
@@ -88,7 +91,10 @@ class C16(Prop):
         tz_hours = rng.choice([9, -5, 13, -10]) if rng.random() < 0.2 else None
         if tz_hours:
             bench = None
-        return dict(tz_hours=tz_hours, only=only, times=times, values=vals, bench=bench, rf=fr(F(round(rng.uniform(0, 0.05), 4))),
+        # the same methods are installed on DataFrames (one level series per column): the series under test is one
+        # column of a two-column frame; a corruption of the values may sit in the *other* column only
+        frame = rng.choice(["first", "second"]) if rng.random() < 0.25 else None
+        return dict(frame=frame, frame_bad_other=rng.random() < 0.5, tz_hours=tz_hours, only=only, times=times, values=vals, bench=bench, rf=fr(F(round(rng.uniform(0, 0.05), 4))),
                     scale=fr(F(rng.choice([0.001, 2.0, 1000.0, 7.5]))), q=rng.choice(["1/40", "1/20", "1/2", "1/10"]),
                     corrupt=corrupt, intraday=intraday)
 
@@ -171,10 +177,19 @@ class C16(Prop):
         if case.get("only"):
             # long histories: the metrics whose exact evaluation stays cheap (no sums over thousands of rationals)
             metrics = [m for m in metrics if m[0] in case["only"]]
+        target, pick = s, (lambda res: res)
+        if case.get("frame"):
+            r.tags.add("dataframe")
+            mine, other = s, s * 3
+            if c in ("nan", "zero", "negative") and case.get("frame_bad_other"):
+                clean = dict(case); clean["corrupt"] = None
+                mine, other = self.series(clean)[0], s
+            cols = {"a": mine, "b": other} if case["frame"] == "first" else {"b": other, "a": mine}
+            target, pick = pd.DataFrame(cols), (lambda res: res["a"])
         got = {}
         for name, fn, arg in metrics:
             try:
-                val = float(fn(s))
+                val = float(pick(fn(target)))
                 st = "ok"
             except ValueError as e:
                 val, st = None, "err rejected"
@@ -282,8 +297,33 @@ class C16(Prop):
         # risk-free series)
         if not case.get("only") and len(L) >= 3:
             try:
-                ts = s.tearsheet(risk_free=rf)
+                with_prices = len(L) % 2 == 0
+                if with_prices:
+                    # the optional `prices=` frame adds one "CAGR <asset>" row per price column: the series itself is one
+                    # of the columns here, so its row must be the series' own CAGR
+                    pf = pd.DataFrame({"self": s, "twice": s * 2})
+                    ts = s.tearsheet(risk_free=rf, prices=pf)
+                    r.tags.add("tearsheet-prices")
+                else:
+                    ts = s.tearsheet(risk_free=rf)
                 col = ts.iloc[:, 0]
+                if with_prices and exp.get("cagr") is not None:
+                    for key in (("Markets", "CAGR self"), ("Markets", "CAGR twice")):
+                        val = float(col[key])
+                        if not (math.isnan(val) or math.isinf(val)) and not close(val, exp["cagr"], 1e-8):
+                            r.fail("tearsheet-row", row=" / ".join(key), reported=val, expected=exp["cagr"],
+                                   clause="each reported metric equals its textbook definition (the tearsheet's rows too)")
+                    # a price column that is not a valid level series must not be measured
+                    bad = s.copy()
+                    bad.iloc[len(bad) // 2] = [float("nan"), 0.0, -1.0][len(L) % 3]
+                    try:
+                        ts_bad = s.tearsheet(risk_free=rf, prices=pd.DataFrame({"self": s, "bad": bad}))
+                        v_bad = float(ts_bad.iloc[:, 0][("Markets", "CAGR bad")])
+                        r.fail("invalid-series-measured", metric="tearsheet CAGR of an invalid price column", value=v_bad,
+                               theorem="validate_accepts_iff / validate_rejects_*",
+                               clause="series that are not valid levels are rejected rather than silently measured")
+                    except (ValueError, KeyError):
+                        pass
                 rows = {"cagr": ("Return", "CAGR"), "vol": ("Risk", "Volatility"), "downvol": ("Risk", "Downside volatility"),
                         "upvol": ("Risk", "Upside volatility"), "maxdd": ("Risk", "Max drawdown"), "martin": ("Risk", "Martin risk")}
                 for name, key in rows.items():
